@@ -11,6 +11,9 @@ Oracle (independent of the model, on the real pymbolic objects): evaluate the or
 and the rewritten expression (assignments executed in order) at random integer points
 under random function tables; hoisted terms mention no free variable; every supplied
 name is assigned exactly once and none occurs in the input.
+Calls come in both pymbolic flavours: Call (positional arguments) and CallWithKwargs
+(positional + keyword arguments, e.g. f(t + dt, y=y)); the latter is a node kind of its own
+with its own mapper methods (map_call_with_kwargs) and is generated in every stream.
 """
 import itertools
 import json
@@ -24,7 +27,9 @@ PID = "C18"
 
 # ------------------------------------------------------------------ case syntax
 # expr: ["int", z] | ["var", x] | ["sum", [e..]] | ["prod", [e..]] | ["quot", a, b]
-#       | ["pow", a, b] | ["call", f, [e..]] | ["not", a]
+#       | ["pow", a, b] | ["call", f, [e..]] | ["callkw", f, [e..], [[key, e]..]] | ["not", a]
+#   callkw = CallWithKwargs(Variable(f), parameters, kw_parameters); the keyword list is the
+#   mapping in insertion (= iteration) order, keys pairwise distinct
 # case: {"expr": expr, "free": [names], "supplier": "v" | "same"}
 #   supplier "v": new_var_func returns Variable("v0"), Variable("v1"), ... (its contract:
 #   pairwise distinct, not occurring in the expression -- the generators never use names
@@ -43,9 +48,27 @@ def T(e):
         return (k, T(e[1]), T(e[2]))
     if k == "call":
         return (k, e[1], tuple(T(c) for c in e[2]))
+    if k == "callkw":
+        return (k, e[1], tuple(T(c) for c in e[2]), tuple((kv[0], T(kv[1])) for kv in e[3]))
     if k == "not":
         return (k, T(e[1]))
     raise ValueError(e)
+
+
+def subexprs(e):
+    """direct subexpressions (function symbols and keyword names excluded)"""
+    k = e[0]
+    if k in ("int", "var"):
+        return ()
+    if k in ("sum", "prod"):
+        return tuple(e[1])
+    if k in ("quot", "pow"):
+        return (e[1], e[2])
+    if k == "call":
+        return tuple(e[2])
+    if k == "callkw":
+        return tuple(e[2]) + tuple(v for _, v in e[3])
+    return (e[1],)
 
 
 def _prims():
@@ -70,6 +93,13 @@ def to_real(e):
         return p.Power(to_real(e[1]), to_real(e[2]))
     if k == "call":
         return p.Call(p.Variable(e[1]), tuple(to_real(c) for c in e[2]))
+    if k == "callkw":
+        from constantdict import constantdict
+        keys = [kv[0] for kv in e[3]]
+        if len(set(keys)) != len(keys):
+            raise ValueError("repeated keyword")
+        return p.CallWithKwargs(p.Variable(e[1]), tuple(to_real(c) for c in e[2]),
+                                constantdict({kv[0]: to_real(kv[1]) for kv in e[3]}))
     if k == "not":
         return p.LogicalNot(to_real(e[1]))
     raise ValueError(e)
@@ -96,6 +126,14 @@ def from_real(o):
         if type(o.function) is not p.Variable:
             raise ValueError("call of a non-variable")
         return ("call", o.function.name, tuple(from_real(c) for c in o.parameters))
+    if t is p.CallWithKwargs:
+        if type(o.function) is not p.Variable:
+            raise ValueError("call of a non-variable")
+        for key in o.kw_parameters:
+            if type(key) is not str:
+                raise ValueError("keyword that is not a string")
+        return ("callkw", o.function.name, tuple(from_real(c) for c in o.parameters),
+                tuple((key, from_real(v)) for key, v in o.kw_parameters.items()))
     if t is p.LogicalNot:
         return ("not", from_real(o.child))
     raise ValueError("unexpected node %r" % (o,))
@@ -121,35 +159,22 @@ def to_coq(e):
         return "(EPow %s %s)" % (to_coq(e[1]), to_coq(e[2]))
     if k == "call":
         return "(ECall %s [%s])" % (coq_str(e[1]), "; ".join(to_coq(c) for c in e[2]))
+    if k == "callkw":
+        return "(ECallKw %s [%s] [%s])" % (coq_str(e[1]), "; ".join(to_coq(c) for c in e[2]),
+                                           "; ".join("(%s, %s)" % (coq_str(kv[0]), to_coq(kv[1])) for kv in e[3]))
     if k == "not":
         return "(ENot %s)" % to_coq(e[1])
     raise ValueError(e)
 
 
 def size(e):
-    k = e[0]
-    if k in ("int", "var"):
-        return 1
-    if k in ("sum", "prod"):
-        return 1 + sum(size(c) for c in e[1])
-    if k in ("quot", "pow"):
-        return 1 + size(e[1]) + size(e[2])
-    if k == "call":
-        return 1 + sum(size(c) for c in e[2])
-    return 1 + size(e[1])
+    return 1 + sum(size(c) for c in subexprs(e))
 
 
 def depth(e):
-    k = e[0]
-    if k in ("int", "var"):
+    if e[0] in ("int", "var"):
         return 0
-    if k in ("sum", "prod"):
-        return 1 + max([depth(c) for c in e[1]] or [0])
-    if k in ("quot", "pow"):
-        return 1 + max(depth(e[1]), depth(e[2]))
-    if k == "call":
-        return 1 + max([depth(c) for c in e[2]] or [0])
-    return 1 + depth(e[1])
+    return 1 + max([depth(c) for c in subexprs(e)] or [0])
 
 
 def names(e):
@@ -166,10 +191,10 @@ def names(e):
                 go(c)
         elif k in ("quot", "pow"):
             go(e[1]), go(e[2])
-        elif k == "call":
+        elif k in ("call", "callkw"):
             if e[1] not in out:
                 out.append(e[1])
-            for c in e[2]:
+            for c in subexprs(e):
                 go(c)
         elif k == "not":
             go(e[1])
@@ -178,16 +203,9 @@ def names(e):
 
 
 def well_formed(e):
-    k = e[0]
-    if k in ("int", "var"):
-        return True
-    if k in ("sum", "prod"):
-        return len(e[1]) > 0 and all(well_formed(c) for c in e[1])
-    if k in ("quot", "pow"):
-        return well_formed(e[1]) and well_formed(e[2])
-    if k == "call":
-        return all(well_formed(c) for c in e[2])
-    return well_formed(e[1])
+    if e[0] in ("sum", "prod") and len(e[1]) == 0:
+        return False
+    return all(well_formed(c) for c in subexprs(e))
 
 
 def is_fresh_name(x):
@@ -243,14 +261,17 @@ def run_impl(case):
 # Total evaluation over Z on the REAL pymbolic objects.  Conventions (any total
 # interpretation would do, the theorem quantifies over them): Quotient = floor division
 # with x/0 := 0; Power a**b := a**b if 0 <= b <= 5 and |a| <= 30 else 0; LogicalNot v := 1 if
-# v == 0 else 0; function symbols = random tables (a pure function of name and arguments).
+# v == 0 else 0; function symbols = random tables (a pure function of name, positional values and
+# the keyword -> value binding; binding by NAME, as in a Python call: the order in which the
+# keywords were written does not matter, and no keyword at all is the positional call).
 
 class Unbound(Exception):
     pass
 
 
-def ftable(salt, f, args):
-    h = zlib.crc32(repr((salt, f, tuple(args))).encode())
+def ftable(salt, f, args, kwargs=()):
+    key = (salt, f, tuple(args)) + ((tuple(sorted(kwargs)),) if kwargs else ())
+    h = zlib.crc32(repr(key).encode())
     return (h % 13) - 6
 
 
@@ -278,6 +299,9 @@ def eval_real(o, env, salt):
         return a ** b if (0 <= b <= 5 and abs(a) <= 30) else 0
     if t is p.Call:
         return ftable(salt, o.function.name, [eval_real(c, env, salt) for c in o.parameters])
+    if t is p.CallWithKwargs:
+        return ftable(salt, o.function.name, [eval_real(c, env, salt) for c in o.parameters],
+                      [(str(key), eval_real(v, env, salt)) for key, v in o.kw_parameters.items()])
     if t is p.LogicalNot:
         return 1 if eval_real(o.child, env, salt) == 0 else 0
     raise ValueError("oracle cannot evaluate %r" % (o,))
@@ -300,6 +324,12 @@ def names_real(o, acc):
     elif t is p.Call:
         names_real(o.function, acc)
         for c in o.parameters:
+            names_real(c, acc)
+    elif t is p.CallWithKwargs:
+        names_real(o.function, acc)
+        for c in o.parameters:
+            names_real(c, acc)
+        for c in o.kw_parameters.values():
             names_real(c, acc)
     elif t is p.LogicalNot:
         names_real(o.child, acc)
@@ -378,6 +408,8 @@ def all_exprs(n, atoms, ctors, maxar, memo):
         out = list(atoms)
         if "call" in ctors:
             out.append(("call", "f", ()))
+        if "callkw" in ctors:
+            out.append(("callkw", "f", (), ()))
     elif n > 1:
         for k in range(1, min(maxar, n - 1) + 1):
             for kids in forests(n - 1, k, atoms, ctors, maxar, memo):
@@ -387,6 +419,10 @@ def all_exprs(n, atoms, ctors, maxar, memo):
                     out.append(("prod", kids))
                 if "call" in ctors:
                     out.append(("call", "f", kids))
+                if "callkw" in ctors:
+                    # every split into positional / keyword arguments with at least one keyword
+                    for j in range(k):
+                        out.append(("callkw", "f", kids[:j], tuple(zip(KEYS, kids[j:]))))
                 if k == 2:
                     if "quot" in ctors:
                         out.append(("quot", kids[0], kids[1]))
@@ -423,6 +459,13 @@ def subsets(xs):
 
 VARS = ["x", "y", "a", "b", "c"]
 FUNS = ["f", "g"]
+# keyword names; deliberately not in alphabetical order (the order of the mapping is the order written)
+KEYS = ["m", "k", "j", "s"]
+
+
+def random_kw(rng, d, lo=1):
+    keys = rng.sample(KEYS, rng.randint(lo, 3))
+    return tuple((key, random_expr(rng, d)) for key in keys)
 
 
 def random_expr(rng, d, p_not=0.06):
@@ -439,8 +482,11 @@ def random_expr(rng, d, p_not=0.06):
         return ("quot", random_expr(rng, d - 1), random_expr(rng, d - 1))
     if k < 0.74:
         return ("pow", random_expr(rng, d - 1), random_expr(rng, d - 1))
-    if k < 1.0 - p_not:
+    if k < 0.87:
         return ("call", rng.choice(FUNS), tuple(random_expr(rng, d - 1) for _ in range(rng.randint(0, 3))))
+    if k < 1.0 - p_not:
+        return ("callkw", rng.choice(FUNS), tuple(random_expr(rng, d - 1) for _ in range(rng.randint(0, 2))),
+                random_kw(rng, d - 1, lo=0 if rng.random() < 0.1 else 1))
     return ("not", random_expr(rng, d - 1))
 
 
@@ -463,6 +509,15 @@ def _with_empty(rng, e):
             return (rng.choice(["sum", "prod"]), ())
         i = rng.randrange(len(e[2]))
         return (k, e[1], e[2][:i] + (_with_empty(rng, e[2][i]),) + e[2][i + 1:])
+    if k == "callkw":
+        n = len(e[2]) + len(e[3])
+        if n == 0:
+            return (rng.choice(["sum", "prod"]), ())
+        i = rng.randrange(n)
+        if i < len(e[2]):
+            return (k, e[1], e[2][:i] + (_with_empty(rng, e[2][i]),) + e[2][i + 1:], e[3])
+        i -= len(e[2])
+        return (k, e[1], e[2], e[3][:i] + ((e[3][i][0], _with_empty(rng, e[3][i][1])),) + e[3][i + 1:])
     return (k, _with_empty(rng, e[1]))
 
 
@@ -494,8 +549,33 @@ def gen_cases(tier, seed):
               for e in all_exprs(n, [("var", "x"), ("var", "a")], {"sum", "call", "quot"}, 3, memo)
               if depth(e) >= 2]
     exprsB = exprsB[::2]              # every second expression of stream B (budget)
+    # exhaustive C: calls with keyword arguments.  Every expression that contains a CallWithKwargs
+    # (every split of the arguments into positional / keyword, keywords m, k, j in that order, and the
+    # node without any keyword), around and inside Sum (map_commut_assoc), Quotient (plain
+    # IdentityMapper node), Call
+    NC = 4
+    memo = {}
+    exprsC = [e for n in range(1, NC + 1)
+              for e in all_exprs(n, atoms[:2] if quick else atoms, {"sum", "quot", "call", "callkw"}, 3, memo)
+              if _has_kind(e, "callkw")]
+    if not quick:
+        memo = {}
+        exprsC += [e for e in all_exprs(NC + 1, atoms[:2], {"sum", "quot", "callkw"}, 3, memo)
+                   if _has_kind(e, "callkw")]
+    # pairs of calls that pymbolic considers EQUAL although their keywords are written in a different
+    # order (kw_parameters is a mapping): the is_constant dictionary has one entry for both
+    x, a, b = ("var", "x"), ("var", "a"), ("var", "b")
+    s1 = ("sum", (a, ("int", 1)))
+    exprsP = []
+    for u, v in ((x, a), (a, x), (a, b), (s1, x), (x, s1), (s1, ("quot", a, b))):
+        c1 = ("callkw", "f", (), (("m", u), ("k", v)))
+        c2 = ("callkw", "f", (), (("k", v), ("m", u)))
+        d1 = ("callkw", "g", (a,), (("m", u), ("k", v), ("j", ("int", 2))))
+        d2 = ("callkw", "g", (a,), (("j", ("int", 2)), ("k", v), ("m", u)))
+        exprsP += [("sum", (c1, c2)), ("prod", (c1, x, c2)), ("quot", c1, c2), ("call", "h", (c2, c1)),
+                   ("sum", (d1, ("prod", (d2, b)))), ("sum", (("not", c1), c2, a))]
     n_exh = 0
-    for e in exprsA + exprsB:
+    for e in exprsA + exprsB + exprsC + exprsP:
         for fr in subsets(names(e)):
             cases.append({"expr": e, "free": fr, "supplier": "v"})
             n_exh += 1
@@ -531,12 +611,19 @@ def gen_cases(tier, seed):
             "exhaustive_scope": "A: all expressions with <= %d nodes over atoms {x, a, 2}, constructors "
                                 "{Sum, Product (1-3 children), Quotient, Power, Call f (0-3 args), LogicalNot}; "
                                 "B: %s expressions with %d..%d nodes and depth >= 2 over atoms {x, a}, "
-                                "constructors {Sum, Call f, Quotient}; each x ALL subsets of its names "
-                                "(variables and function symbols) declared free"
-                                % (NA, "every second of the", NA + 1, NB),
-            "exhaustive_expressions": len(exprsA) + len(exprsB),
-            "random_scope": "depth 2-4, 1-4 children, variables x y a b c, ints -2..3, functions f g, "
-                            "each name free with probability 0.4"}
+                                "constructors {Sum, Call f, Quotient}; C: all %d expressions with <= %d nodes "
+                                "over atoms %s, constructors {Sum, Quotient, Call f, CallWithKwargs f (every "
+                                "positional/keyword split of 0-3 arguments, keywords m, k, j)} that contain a "
+                                "CallWithKwargs; P: %d expressions with two calls equal up to keyword order; "
+                                "each x ALL subsets of its names (variables and function symbols) declared free"
+                                % (NA, "every second of the", NA + 1, NB, len(exprsC), NC,
+                                   "{x, a}" if quick else "{x, a, 2} (and with 5 nodes over {x, a} without Call)",
+                                   len(exprsP)),
+            "exhaustive_expressions": len(exprsA) + len(exprsB) + len(exprsC) + len(exprsP),
+            "kwargs_call_cases": sum(1 for c in cases if _has_kind(c["expr"], "callkw")),
+            "random_scope": "depth 2-4, 1-4 children, variables x y a b c, ints -2..3, functions f g "
+                            "(Call with 0-3 arguments; CallWithKwargs with 0-2 positional and 0-3 keyword "
+                            "arguments out of m k j s in random order), each name free with probability 0.4"}
     return cases, dist
 
 
@@ -568,6 +655,19 @@ def _neighbours(e):
         for i, c in enumerate(e[2]):
             for c2 in _neighbours(c):
                 yield (k, e[1], e[2][:i] + (c2,) + e[2][i + 1:])
+    elif k == "callkw":
+        for c in subexprs(e):
+            yield c
+        for i in range(len(e[2])):
+            yield (k, e[1], e[2][:i] + e[2][i + 1:], e[3])
+        for i in range(len(e[3])):
+            yield (k, e[1], e[2], e[3][:i] + e[3][i + 1:])
+        for i, c in enumerate(e[2]):
+            for c2 in _neighbours(c):
+                yield (k, e[1], e[2][:i] + (c2,) + e[2][i + 1:], e[3])
+        for i, (key, c) in enumerate(e[3]):
+            for c2 in _neighbours(c):
+                yield (k, e[1], e[2], e[3][:i] + ((key, c2),) + e[3][i + 1:])
     elif k == "not":
         yield e[1]
         for c2 in _neighbours(e[1]):
@@ -601,6 +701,9 @@ def shrink(case, fails):
 
 HEADER = ("From Coq Require Import List ZArith String Bool.\nImport ListNotations.\nOpen Scope string_scope.\n"
           "From Dagrt Require Import GenC18 Collapse.\n"
+          "(* typed constructor of a case: lets Coq elaborate the (large) case terms against known types *)\n"
+          "Definition mk (sup : bool) (free : list string) (e : expr) (want : outcome)\n"
+          "  : bool * list string * expr * outcome := (sup, free, e, want).\n"
           "Definition chk (c : bool * list string * expr * outcome) : bool :=\n"
           "  match c with (sup, free, e, want) =>\n"
           "    outcome_eqb (outcome_of (collapse finder_unary_combines (if sup then fresh_v else fresh_same) free e)) want\n"
@@ -614,7 +717,7 @@ def outcome_coq(res):
 
 
 def case_term(case, res):
-    return "(%s, [%s], %s, %s)" % ("true" if case["supplier"] == "v" else "false",
+    return "(mk %s [%s] %s %s)" % ("true" if case["supplier"] == "v" else "false",
                                    "; ".join(coq_str(x) for x in case["free"]),
                                    to_coq(case["expr"]), outcome_coq(res))
 
@@ -673,7 +776,7 @@ def main(tier):
     if os.path.exists(os.path.join(common.COQ, "model", "Collapse.vo")) and os.path.exists(
             os.path.join(common.COQ, "gen", "GenC18.vo")):
         terms = [case_term(c, r) for c, r in zip(cases, results)]
-        mism, n_eval, errors = common.eval_cases(PID, HEADER, terms, "chk")
+        mism, n_eval, errors = common.eval_cases(PID, HEADER, terms, "chk", shard=min(1500, max(300, -(-len(terms) // 32))))
     else:
         errors = ["model not built"]
 
@@ -721,21 +824,19 @@ def main(tier):
         "commutative and associative (the rewriting regroups operands); quotient, power and logical not are "
         "arbitrary total functions",
         "expressions range over Variable, int, Sum, Product, Quotient, Power, Call(Variable, positional args), "
-        "LogicalNot (the latter standing for the unary pass-through nodes of CombineMapper)"]
+        "CallWithKwargs(Variable, positional args, keyword args with string keys), "
+        "LogicalNot (the latter standing for the unary pass-through nodes of CombineMapper)",
+        "a call with keyword arguments denotes a pure function of the symbol, the positional values and the "
+        "keyword/value pairs (model: of the pairs as written; oracle: bound by name)"]
     return rep.finish("proof")
 
 
+def _has_kind(e, kind):
+    return e[0] == kind or any(_has_kind(c, kind) for c in subexprs(e))
+
+
 def _has_not(e):
-    k = e[0]
-    if k == "not":
-        return True
-    if k in ("sum", "prod"):
-        return any(_has_not(c) for c in e[1])
-    if k in ("quot", "pow"):
-        return _has_not(e[1]) or _has_not(e[2])
-    if k == "call":
-        return any(_has_not(c) for c in e[2])
-    return False
+    return _has_kind(e, "not")
 
 
 def replay(path):
